@@ -20,7 +20,7 @@ use crate::{
     },
     socket::{Socket, UdpSocket},
     utils::{maybe_gather, retry_on_timeout, u8_lower_upper},
-    GDErrorKind::{BadGame, Decompress, UnknownEnumCast},
+    GDErrorKind::{BadGame, Decompress, PacketBad, UnknownEnumCast},
     GDResult,
 };
 
@@ -146,17 +146,34 @@ impl ValveProtocol {
         buffer.move_cursor(-1)?;
         if header == 0xFE {
             // the packet is split
-            let mut main_packet = SplitPacket::new(engine, protocol, &mut buffer)?;
-            let mut chunk_packets = Vec::with_capacity(main_packet.total.saturating_sub(1) as usize);
+            let first_packet = SplitPacket::new(engine, protocol, &mut buffer)?;
+            let total = first_packet.total;
+            let mut chunk_packets = Vec::with_capacity(total.saturating_sub(1) as usize);
+            chunk_packets.push(first_packet);
 
-            for _ in 1 .. main_packet.total {
+            for _ in 1 .. total {
                 let new_data = self.socket.receive(Some(buffer_size))?;
                 buffer = Buffer::<LittleEndian>::new(&new_data);
                 let chunk_packet = SplitPacket::new(engine, protocol, &mut buffer)?;
                 chunk_packets.push(chunk_packet);
             }
 
+            // The packet that happened to arrive first is not necessarily packet 0.
             chunk_packets.sort_by(|a, b| a.number.cmp(&b.number));
+
+            // Every packet number has to be there exactly once (no duplicate, none missing).
+            if chunk_packets
+                .iter()
+                .enumerate()
+                .any(|(i, packet)| usize::from(packet.number) != i)
+            {
+                return Err(PacketBad.context("Split packet numbers are not 0 .. total"));
+            }
+
+            let mut chunk_packets = chunk_packets.into_iter();
+            let mut main_packet = chunk_packets
+                .next()
+                .ok_or_else(|| PacketBad.context("No split packet"))?;
 
             for chunk_packet in chunk_packets {
                 main_packet.payload.extend(chunk_packet.payload);
